@@ -344,7 +344,7 @@ def first_diff(a: str, b: str) -> str:
 
 def engine_cases(ctx):
     rng = ctx.rng
-    n = ctx.scale(60, 1200)
+    n = ctx.scale(150, 1500)
     classes = list(G.term_classes())
     for i in range(n):
         d = 1 + (i % 9)
@@ -411,7 +411,8 @@ def correspond(ctx):
             ok, detail = oracle(c)
             st.count(f"oracle-{c.get('kind', 'engine')}-{c['mode']}{'-black' if c.get('formatted') else ''}-alias={c['alias']!r}")
             if not ok:
-                violation(shrink(c), detail)
+                small = shrink(c)
+                violation(small, oracle(small)[1] if small is not c else detail)
                 failed = True
                 break
         if failed:
